@@ -10,23 +10,38 @@ variable {n na : Nat} {T : List Nat}
 abbrev Fresh (n : Nat) : Nat → Prop := fun id => n ≤ id
 abbrev Any {α : Type} : α → Prop := fun _ => True
 
-theorem good_simpleCustomize (F : Facts15) (src : Nat) (kw : Kw) :
+theorem good_aliasColWrite (F : Facts15) [d : DeepCopy F] (a : Nat) (kw : Kw) :
+    Good n na T (aliasColWrite F a kw) Any := by
+  unfold aliasColWrite
+  refine Good.bind Good.getHeap (fun h _ => ?_)
+  split
+  · exact Good.pure' _ trivial
+  · simp only [d.deep, beq_self_eq_true, if_true]
+    exact Good.pure' _ trivial
+
+theorem good_allocDerived (F : Facts15) [DeepCopy F] (a : Nat) (kw : Kw) :
+    Good n na T (allocDerived F a kw) Any := by
+  unfold allocDerived
+  refine Good.bind Good.getHeap (fun h _ => ?_)
+  refine Good.bind (good_aliasColWrite F a kw) (fun _ _ => ?_)
+  exact Good.allocAttrs _
+
+theorem good_simpleCustomize (F : Facts15) [DeepCopy F] (src : Nat) (kw : Kw) :
     Good n na T (simpleCustomize F src kw) (Fresh n) := by
   unfold simpleCustomize
   refine Good.bind (Good.getCls _) (fun sc _ => ?_)
   refine Good.bind (Good.guardNone _) (fun _ _ => ?_)
   refine Good.bind Good.getHeap (fun h _ => ?_)
   refine Good.bind (Good.guardNone _) (fun _ _ => ?_)
-  refine Good.bind (Good.allocAttrs _) (fun a _ => ?_)
+  refine Good.bind (good_allocDerived _ _ _) (fun a _ => ?_)
   refine Good.bind Good.getHeap (fun h1 _ => ?_)
   exact Good.allocCls _
 
-theorem good_xmlCustomize (src : Nat) (kw : Kw) : Good n na T (xmlCustomize src kw) (Fresh n) := by
+theorem good_xmlCustomize (F : Facts15) [DeepCopy F] (src : Nat) (kw : Kw) : Good n na T (xmlCustomize F src kw) (Fresh n) := by
   unfold xmlCustomize
   refine Good.bind (Good.getCls _) (fun sc _ => ?_)
   refine Good.bind (Good.guardNone _) (fun _ _ => ?_)
-  refine Good.bind Good.getHeap (fun h _ => ?_)
-  refine Good.bind (Good.allocAttrs _) (fun a _ => ?_)
+  refine Good.bind (good_allocDerived _ _ _) (fun a _ => ?_)
   exact Good.allocCls _
 
 theorem ext_registerVariant (h : Heap) (ra v : Nat) : Ext n na T h (registerVariant h ra v) := by
@@ -49,14 +64,21 @@ theorem good_delayRest (c a : Nat) (rest : List (String × Kw)) : Good n na T (d
   unfold delayRest
   exact Good.bind Good.getHeap (fun h _ => Good.updCells _ _)
 
-theorem good_newVariant (sc : Cls) (src : Nat) (ext : Option Nat) (kw : Kw) (h0 : Heap) :
-    Good n na T (newVariant sc src ext kw h0) (fun p => n ≤ p.2) := by
-  unfold newVariant
+theorem good_newVariantTail (rec0 : AttrRec) (sc : Cls) (src : Nat) (ext : Option Nat) (kw : Kw) :
+    Good n na T (newVariantTail rec0 sc src ext kw) (fun p => n ≤ p.2) := by
+  unfold newVariantTail
   refine Good.bind (Good.allocAttrs _) (fun a _ => ?_)
   refine Good.bind (Good.allocCls _) (fun c hc => ?_)
   refine Good.bind (good_copyDca _) (fun _ _ => ?_)
   refine Good.bind (good_processVariants _ _ _) (fun _ _ => ?_)
   exact Good.pure' _ hc
+
+theorem good_newVariant (F : Facts15) [DeepCopy F] (sc : Cls) (src : Nat) (ext : Option Nat) (kw : Kw) :
+    Good n na T (newVariant F sc src ext kw) (fun p => n ≤ p.2) := by
+  unfold newVariant
+  refine Good.bind Good.getHeap (fun h _ => ?_)
+  refine Good.bind (good_aliasColWrite F _ kw) (fun _ _ => ?_)
+  exact good_newVariantTail _ _ _ _ _
 
 /-- the mutually recursive customisation programs, all at once, by induction on the fuel -/
 structure GoodCust (F : Facts15) (n na : Nat) (T : List Nat) (fuel : Nat) : Prop where
@@ -69,7 +91,7 @@ structure GoodCust (F : Facts15) (n na : Nat) (T : List Nat) (fuel : Nat) : Prop
   custFieldsAll : ∀ c fields d, (n ≤ c ∨ c ∈ T) → Good n na T (custFieldsAll F fuel c fields d) Any
   custFieldsSome : ∀ c cs, (n ≤ c ∨ c ∈ T) → Good n na T (custFieldsSome F fuel c cs) Any
 
-theorem goodCust (F : Facts15) (fuel : Nat) : GoodCust F n na T fuel := by
+theorem goodCust (F : Facts15) [DeepCopy F] (fuel : Nat) : GoodCust F n na T fuel := by
   induction fuel with
   | zero =>
     constructor <;> intros <;> simp only [custComplex, processCaa, processCa, custExt, customizeAny, custField,
@@ -114,7 +136,7 @@ theorem goodCust (F : Facts15) (fuel : Nat) : GoodCust F n na T fuel := by
       · exact ih.custComplex _ _ _ _
       · exact ih.custComplex _ _ _ _
       · exact ih.custComplex _ _ _ _
-      · exact good_xmlCustomize _ _
+      · exact good_xmlCustomize _ _ _
       · exact good_simpleCustomize _ _ _
     · intro c k kw hc
       simp only [custField]
@@ -140,13 +162,13 @@ theorem goodCust (F : Facts15) (fuel : Nat) : GoodCust F n na T fuel := by
         · refine Good.bind (ih.custFieldsSome _ _ hc) (fun r _ => ?_)
           exact Good.pure' _ trivial
 
-theorem good_customizeAny (F : Facts15) (fuel src : Nat) (kw : Kw) :
+theorem good_customizeAny (F : Facts15) [DeepCopy F] (fuel src : Nat) (kw : Kw) :
     Good n na T (customizeAny F fuel src kw) (Fresh n) := (goodCust F fuel).customizeAny src kw
 
-theorem good_custComplex (F : Facts15) (fuel src : Nat) (kw : Kw) (ca : Option (List (String × Kw))) (caa : Option Kw) :
+theorem good_custComplex (F : Facts15) [DeepCopy F] (fuel src : Nat) (kw : Kw) (ca : Option (List (String × Kw))) (caa : Option Kw) :
     Good n na T (custComplex F fuel src kw ca caa) (Fresh n) := (goodCust F fuel).custComplex src kw ca caa
 
-theorem good_setSerializer (F : Facts15) (fuel r ser : Nat) (member : Option String) (hr : n ≤ r ∨ r ∈ T) :
+theorem good_setSerializer (F : Facts15) [DeepCopy F] (fuel r ser : Nat) (member : Option String) (hr : n ≤ r ∨ r ∈ T) :
     Good n na T (setSerializer F fuel r ser member) Any := by
   unfold setSerializer
   refine Good.bind (Good.getCls _) (fun sc _ => ?_)
@@ -157,7 +179,7 @@ theorem good_setSerializer (F : Facts15) (fuel r ser : Nat) (member : Option Str
   · exact (good_customizeAny _ _ _ _).weaken (fun _ _ => trivial)
   · exact Good.pure' _ trivial
 
-theorem good_arrayOp (F : Facts15) (fuel src : Nat) (member : Option String) (kw : Kw) (flat iter : Bool) :
+theorem good_arrayOp (F : Facts15) [DeepCopy F] (fuel src : Nat) (member : Option String) (kw : Kw) (flat iter : Bool) :
     Good n na T (arrayOp F fuel src member kw flat iter) (Fresh n) := by
   unfold arrayOp
   refine Good.bind (Good.getCls _) (fun sc _ => ?_)
@@ -174,7 +196,7 @@ structure GoodMand (F : Facts15) (n na : Nat) (T : List Nat) (fuel : Nat) : Prop
   mandatory : ∀ src, Good n na T (mandatory F fuel src) (Fresh n)
   mandMember : ∀ b target, (n ≤ target ∨ target ∈ T) → Good n na T (mandMember F fuel b target) Any
 
-theorem goodMand (F : Facts15) (hF : F.mandRule = .copies) (fuel : Nat) : GoodMand F n na T fuel := by
+theorem goodMand (F : Facts15) [DeepCopy F] (hF : F.mandRule = .copies) (fuel : Nat) : GoodMand F n na T fuel := by
   induction fuel with
   | zero => constructor <;> intros <;> simp only [mandatory, mandMember] <;> exact Good.fail _
   | succ fuel ih =>
@@ -216,7 +238,7 @@ theorem good_xmlattrOp (F : Facts15) (src : Nat) : Good n na T (xmlattrOp F src)
   refine Good.bind (Good.guardNone _) (fun _ _ => ?_)
   exact Good.allocCls _
 
-theorem good_delayedAll (F : Facts15) (fuel c t : Nat) : Good n na T (delayedAll F fuel c t) Any := by
+theorem good_delayedAll (F : Facts15) [DeepCopy F] (fuel c t : Nat) : Good n na T (delayedAll F fuel c t) Any := by
   unfold delayedAll
   refine Good.bind (Good.getCls _) (fun cl _ => ?_)
   refine Good.bind Good.getHeap (fun h _ => ?_)
@@ -224,7 +246,7 @@ theorem good_delayedAll (F : Facts15) (fuel c t : Nat) : Good n na T (delayedAll
   · exact (good_customizeAny _ _ _ _).weaken (fun _ _ => trivial)
   · exact Good.pure' _ trivial
 
-theorem good_delayedOne (F : Facts15) (fuel c : Nat) (name : String) (t : Nat) (pop : Bool) :
+theorem good_delayedOne (F : Facts15) [DeepCopy F] (fuel c : Nat) (name : String) (t : Nat) (pop : Bool) :
     Good n na T (delayedOne F fuel c name t pop) Any := by
   unfold delayedOne
   refine Good.bind (Good.getCls _) (fun cl _ => ?_)
@@ -236,14 +258,14 @@ theorem good_delayedOne (F : Facts15) (fuel c : Nat) (name : String) (t : Nat) (
     · exact Good.pure' _ trivial
   · exact Good.pure' _ trivial
 
-theorem good_appendImpl (F : Facts15) (fuel : Nat) (name : String) (t c : Nat) (hc : n ≤ c ∨ c ∈ T) :
+theorem good_appendImpl (F : Facts15) [DeepCopy F] (fuel : Nat) (name : String) (t c : Nat) (hc : n ≤ c ∨ c ∈ T) :
     Good n na T (appendImpl F fuel name t c) Any := by
   unfold appendImpl
   refine Good.bind (good_delayedAll _ _ _ _) (fun t1 _ => ?_)
   refine Good.bind (good_delayedOne _ _ _ _ _ _) (fun t2 _ => ?_)
   exact Good.updCls _ _ hc (fun _ => ⟨rfl, rfl, rfl⟩)
 
-theorem good_insertImpl (F : Facts15) (fuel idx : Nat) (name : String) (t c : Nat) (hc : n ≤ c ∨ c ∈ T) :
+theorem good_insertImpl (F : Facts15) [DeepCopy F] (fuel idx : Nat) (name : String) (t c : Nat) (hc : n ≤ c ∨ c ∈ T) :
     Good n na T (insertImpl F fuel idx name t c) Any := by
   unfold insertImpl
   refine Good.bind (good_delayedAll _ _ _ _) (fun t1 _ => ?_)
